@@ -106,6 +106,11 @@ type scriptedRand struct {
 	// return errors instead of failing the test
 	allowDry bool
 	dry      bool
+
+	// dupRun: word draws 2 .. dupRun+1 repeat the first word (a run of
+	// consecutive duplicate draws: the generators must keep drawing until a
+	// fresh name comes), without being choice points
+	dupRun int
 }
 
 // shiftRight shifts the big-endian number in p right by n bits.
@@ -220,6 +225,11 @@ func (s *scriptedRand) Read(p []byte) (int, error) {
 			s.lastWord = s.forceWord
 			putBE(p, uint64(s.forceWord))
 			s.log = append(s.log, fmt.Sprintf("word=%d(forced)", s.forceWord))
+			break
+		}
+		if s.dupRun > 0 && s.wordReads >= 2 && s.wordReads <= s.dupRun+1 {
+			putBE(p, uint64(s.lastWord))
+			s.log = append(s.log, fmt.Sprintf("word=%d(dup-run)", s.lastWord))
 			break
 		}
 		c := s.x.Choose(5, "word")
@@ -430,6 +440,7 @@ type genCfg struct {
 	Path     string `json:"wrap_path,omitempty"`
 	Excl     bool   `json:"exclusive,omitempty"`
 	Dirname  string `json:"dirname,omitempty"`
+	DupRun   int    `json:"dup_run,omitempty"`
 }
 
 func (g genCfg) String() string {
@@ -453,6 +464,7 @@ func runGenForced(t *testing.T, g genCfg, x *xplore.Ctx, forceWord, forceExt int
 	ls := lsOf(s)
 	rnd := &scriptedRand{x: x, forceWord: forceWord, forceExt: forceExt}
 	rnd.allowDry = g.Gen == "UnixFSFile" || (g.Gen == "UnixFSDirectory" && g.Custom)
+	rnd.dupRun = g.DupRun
 	pathRule, full := false, false
 	var de testutil.DirEntry
 	var err error
@@ -568,6 +580,11 @@ func configs(quick bool) []genCfg {
 	// entries' paths are that plus "/" plus their name, whatever the spelling
 	for _, dn := range []string{"top", "/top", "a/b", "/top/", "./x"} {
 		out = append(out, genCfg{Gen: "UnixFSDirectory", Size: 64, Dirname: dn}, genCfg{Gen: "UnixFSDirectory", Size: 64, Dirname: dn, Custom: true})
+	}
+	// runs of 9 and 40 consecutive draws of a name already used
+	for _, dr := range []int{9, 40} {
+		out = append(out, genCfg{Gen: "UnixFSDirectory", Size: 64, DupRun: dr}, genCfg{Gen: "UnixFSDirectory", Size: 64, Bitwidth: 3, DupRun: dr},
+			genCfg{Gen: "GenerateDirectory", Size: 64, DupRun: dr})
 	}
 	out = append(out, genCfg{Gen: "GenerateDirectoryFrom", Size: 64, Sharded: true})
 	out = append(out, genCfg{Gen: "BuildDirectory"}, genCfg{Gen: "BuildDirectory", Sharded: true})
